@@ -32,7 +32,8 @@ Theorem C01_exits_never_join_a_live_worker :
 Proof. split; [exact LedgerThm.broken_exit_good | exact LedgerThm.normal_exit_good]. Qed.
 Print Assumptions C01_exits_never_join_a_live_worker.
 
-(* the wake-up protocol of submit / cancel / shutdown and the manager (Model/Wake.v; the re-check flag is read off run()): after any
+(* the wake-up protocol of submit / cancel / shutdown and the manager (Model/Wake.v; submit() is walked in the statement order of the
+   source, the re-check flag is read off run()): after any
    history the manager is parked with nothing inside the pool left to wake it only if its table is empty and nobody asked it to
    stop -- the hang H11 (submit, cancel, shutdown(wait=True)) is the failure of this statement on the pinned source *)
 Theorem C01_no_wake_up_is_lost :
@@ -41,8 +42,15 @@ Proof. exact WakeThm.no_wake_up_is_lost. Qed.
 Print Assumptions C01_no_wake_up_is_lost.
 
 Example C01_h11_without_the_recheck :
-  let s := fold_left (Wake.step_with false) [Wake.Mgr; Wake.Submit; Wake.Cancel; Wake.Shutdown; Wake.Mgr; Wake.Mgr; Wake.Mgr; Wake.Mgr; Wake.Mgr] Wake.ws0 in
+  let s := fold_left (Wake.step_with false Wake.wake_ops)
+             [Wake.Mgr; Wake.SubmitBegin; Wake.SubStep; Wake.SubStep; Wake.SubStep; Wake.Cancel; Wake.Shutdown; Wake.Mgr; Wake.Mgr; Wake.Mgr; Wake.Mgr; Wake.Mgr] Wake.ws0 in
   Wake.asleep_for_good s = true /\ Wake.shut s = true.
+Proof. vm_compute. auto. Qed.
+(* ... and so does a submit() that writes the wake-up byte before it has published the work id *)
+Example C01_wake_up_before_publishing :
+  let s := fold_left (Wake.step_with true [PoolLib.SWakeup; PoolLib.SAddPending; PoolLib.SPutWorkId])
+             [Wake.Mgr; Wake.SubmitBegin; Wake.SubStep; Wake.Mgr; Wake.Mgr; Wake.Mgr; Wake.Mgr; Wake.Mgr; Wake.SubStep; Wake.SubStep] Wake.ws0 in
+  Wake.asleep_for_good s = true /\ Wake.in_table s = 1.
 Proof. vm_compute. auto. Qed.
 
 Example C01_example :
